@@ -18,7 +18,8 @@ func init() { register("C18", "Run.C18", genC18) }
 
 // ---- freshest-CRL extension shapes ----
 type gnameA struct {
-	URI string // "" = a non-URI general name (dNSName)
+	URI       string // "" = a non-URI general name (dNSName)
+	Truncated bool   // a non-URI general name whose length runs past the end of the enclosing element
 }
 type dpointA struct {
 	Kind  string // noname | full | relative | malformed | reasons-only
@@ -59,7 +60,9 @@ func (f fshapeA) der() []byte {
 		case "full":
 			var names []byte
 			for _, n := range p.Names {
-				if n.URI != "" {
+				if n.Truncated {
+					names = append(names, 0x82, 0x05, 0x61) // dNSName claiming 5 bytes, 1 present
+				} else if n.URI != "" {
 					names = append(names, rawCtx(6, false, []byte(n.URI))...)
 				} else {
 					names = append(names, rawCtx(2, false, []byte("crl.example"))...)
@@ -303,7 +306,9 @@ func runC18(w *CaseWriter, withCache, discard bool, initial map[string]fcrlA, op
 			world.events = nil
 			var b *crlpkg.Bundle
 			var ferr error
-			func() {
+			done := make(chan struct{})
+			go func() {
+				defer close(done)
 				defer func() {
 					if r := recover(); r != nil {
 						panicked = true
@@ -312,6 +317,13 @@ func runC18(w *CaseWriter, withCache, discard bool, initial map[string]fcrlA, op
 				}()
 				b, ferr = f.Fetch(context.Background(), o.URL)
 			}()
+			select {
+			case <-done:
+			case <-time.After(10 * time.Second): // the fetch does not return although the server answered at once
+				panicked = true
+				ferr = fmt.Errorf("hang: Fetch did not return within 10s")
+				b = nil
+			}
 			res := "FErr"
 			if ferr == nil && b != nil && b.BaseCRL != nil {
 				d := "None"
@@ -380,6 +392,8 @@ func genC18(tier string, rng *RNG, w *CaseWriter) {
 		{Kind: "points", Points: []dpointA{{Kind: "malformed"}}},
 		{Kind: "points", Points: []dpointA{{Kind: "full", Names: uris(d1)}, {Kind: "malformed"}}},
 		{Kind: "points", Points: []dpointA{{Kind: "reasons-only"}}},
+		{Kind: "points", Points: []dpointA{{Kind: "full", Names: []gnameA{{Truncated: true}}}}},            // malformed non-URI name: reading stops there
+		{Kind: "points", Points: []dpointA{{Kind: "full", Names: []gnameA{{URI: d1}, {Truncated: true}}}}}, // URI, then a malformed non-URI name
 		{Kind: "points", Points: nil},
 		{Kind: "badouter"},
 	}
